@@ -31,6 +31,7 @@ UNIT_DEFAULT_PROPS["U11"] = ["C14"]
 UNIT_DEFAULT_PROPS["U13"] = ["C17"]
 UNIT_DEFAULT_PROPS["U10b"] = ["C09"]
 UNIT_DEFAULT_PROPS["U17"] = ["C08"]
+UNIT_DEFAULT_PROPS["U18"] = ["C09"]
 UNIT_DEFAULT_PROPS["U15"] = ["C02"]
 
 RUNTIME = ["U6", "U6b", "U7", "U8"] + U9
@@ -45,9 +46,9 @@ PROPS = {
     "C04": {"units": ["U6b", "U7", "U15"] + U9 + U16, "safety_units": ["U6", "U6b", "U7"] + U9 + U16},
     "C05": {"units": ["U6b", "U8"], "safety_units": ["U8"]},
     "C06": {"units": ["U2", "U4", "U6", "U7", "U8", "U15"]},
-    "C07": {"units": ["U9c", "U9d", "U9g", "U9h", "U16g", "U16h", "U10b"]},
+    "C07": {"units": ["U9c", "U9d", "U9g", "U9h", "U16g", "U16h", "U10b", "U18"]},
     "C08": {"units": ["U10", "U10b", "U17"] + U9, "safety_units": ["U17"]},
-    "C09": {"units": ["U10", "U10b"] + U9, "safety_units": ["U10", "U10b"]},
+    "C09": {"units": ["U10", "U10b", "U18"] + U9, "safety_units": ["U10", "U10b", "U18"]},
     "C20": {"units": ["U6", "U6b"]},
     "C10": {"units": U9},
     "C11": {"units": ["U1", "U2", "U3", "U4"], "safety_units": ["U1", "U2", "U3", "U4"]},
